@@ -110,6 +110,8 @@ def run(ctx):
     awc2 = (ix["awc(w1;w2:f1,k)"], ix["awc(w1;w2:f2,k)"])
     triples += [skew + (ix[c],) for c in ("ro(w1;n)", "add(w1;f1,k)", "del(w1)", "list")]
     triples += [awc2 + (ix[c],) for c in ("ro(w2;n)", "del(w2)")]
+    # three clients that all need world w2, which does not exist yet (creation race in FindOrCreateWorld)
+    triples += [(ix["ro(w2;n)"], ix["add(w2;f1,k)"], ix["rmif(w2;m->n)"]), (ix["ro(w2;n)"], ix["ro(w2;n)"], ix["add(w2;f1,k)"])]
     triples = sorted(set(tuple(sorted(t)) for t in triples))
     cfgs = pairs + triples
     reqs_of = lambda g: [CATALOGUE[i - 1] if i else sl.IDLE for i in g]
@@ -200,7 +202,12 @@ def run(ctx):
         for path in (("grpc", "ui") if (g in nonserial or rng.random() < 0.15) else ("grpc",)):
             c = sl.base_case(reqs_of(g), "conc", path)
             heavy = g in nonserial
-            c.update({"serial": sorted(serial[g]), "model": sorted(model[g]), "reps": reps * (3 if heavy else 1),
+            # several clients asking for a world that is not in the map yet and that nobody deletes: creation race
+            rs = [r for r in reqs_of(g) if r["k"] in EVAL_KINDS]
+            creators = sum(1 for r in rs if r["w"] == "w2") >= 2 and not any(
+                (r["k"] == "del" and r["w"] == "w2") or (r["k"] == "awc" and r["x"] == "w2") for r in reqs_of(g))
+            c.update({"serial": sorted(serial[g]), "model": sorted(model[g]),
+                      "reps": reps * (3 if heavy else (20 if creators else 1)),
                       "perturb": True, "cause": cause(g) if heavy else ""})
             add(c)
     nconc = len(cases) - nserial
